@@ -138,7 +138,7 @@ def run(ctx):
                     s.write(path)
                     r = SED.read(path, unit_flux=funit, order=order)
                 except Exception as exc:
-                    ctx.violation('sed:roundtrip-raised:%s' % type(exc).__name__, 'SED write/read raised: %r' % (exc,), dict(wit0, kind='sed'))
+                    ctx.raised(exc, 'sed:roundtrip-raised:%s' % type(exc).__name__, 'SED write/read raised: %r' % (exc,), dict(wit0, kind='sed'))
                     ok = False
                 if ok:
                     ctx.event('roundtrip:sed')
@@ -216,7 +216,7 @@ def run(ctx):
                         s2.write(path2)
                         r = SED.read(path2, unit_flux=funit, order=order)
                     except Exception as exc:
-                        ctx.violation('sed:roundtrip-raised:%s' % type(exc).__name__, 'SED write/read raised on a re-used object: %r' % (exc,), dict(wit0, kind='sed-reused', use=use))
+                        ctx.raised(exc, 'sed:roundtrip-raised:%s' % type(exc).__name__, 'SED write/read raised on a re-used object: %r' % (exc,), dict(wit0, kind='sed-reused', use=use))
                         break
                     ctx.event('roundtrip:sed-object-reused')
                     got_w = np.asarray(r.wav.to(u.micron).value, float)
@@ -267,7 +267,7 @@ def run(ctx):
                 c.write(path)
                 r = SEDCube.read(path, order=order, memmap=memmap)
             except Exception as exc:
-                ctx.violation('cube:roundtrip-raised:%s' % type(exc).__name__, 'cube write/read raised: %r' % (exc,), dict(wit0, kind='cube'))
+                ctx.raised(exc, 'cube:roundtrip-raised:%s' % type(exc).__name__, 'cube write/read raised: %r' % (exc,), dict(wit0, kind='cube'))
                 ok = False
             if ok:
                 ctx.event('roundtrip:cube')
@@ -326,7 +326,7 @@ def run(ctx):
                         if with_unc and not O.close(np.asarray(s1.error.to(funit).value, float), unc[mi][:, idx], 1e-12):
                             ctx.violation('cube:get_sed-wrong-slice', 'extracted uncertainties differ', dict(wit0, model=mi))
                     except Exception as exc:
-                        ctx.violation('cube:get_sed-raised:%s' % ('no-unc' if not with_unc else 'other'),
+                        ctx.raised(exc, 'cube:get_sed-raised:%s' % ('no-unc' if not with_unc else 'other'),
                                       'get_sed raised: %r' % (exc,), dict(wit0, model=mi))
                 ctx.case(('cube', ic, ctx.shard), nontrivial=True)
                 del r
@@ -361,7 +361,7 @@ def run(ctx):
                         c2.write(path2)
                         r = SEDCube.read(path2, order=order, memmap=False)
                     except Exception as exc:
-                        ctx.violation('cube:roundtrip-raised:%s' % type(exc).__name__, 'cube write/read raised on a re-used object: %r' % (exc,), dict(wit0, kind='cube-reused', use=use))
+                        ctx.raised(exc, 'cube:roundtrip-raised:%s' % type(exc).__name__, 'cube write/read raised on a re-used object: %r' % (exc,), dict(wit0, kind='cube-reused', use=use))
                         break
                     ctx.event('roundtrip:cube-object-reused')
                     got_w = np.asarray(r.wav.to(u.micron).value, float)
@@ -395,7 +395,7 @@ def run(ctx):
                     try:
                         s3 = c3.get_sed(str(c3.names[mi]))
                     except Exception as exc:
-                        ctx.violation('cube:get_sed-raised:%s' % ('no-unc' if not with_unc else 'other'), 'get_sed raised on an in-memory cube: %r' % (exc,), dict(wit0, model=mi, use=use))
+                        ctx.raised(exc, 'cube:get_sed-raised:%s' % ('no-unc' if not with_unc else 'other'), 'get_sed raised on an in-memory cube: %r' % (exc,), dict(wit0, model=mi, use=use))
                         break
                     ctx.event('cube:get_sed-after-values-reassigned')
                     w3 = np.asarray(s3.wav.to(u.micron).value, float)
@@ -444,7 +444,7 @@ def run(ctx):
                 if bad:
                     ctx.violation('convolved:' + bad[0], 'convolved-flux table read back differs: ' + ', '.join(bad), dict(wit0, kind='convolved'))
             except Exception as exc:
-                ctx.violation('convolved:roundtrip-raised', 'convolved write/read raised: %r' % (exc,), dict(wit0, kind='convolved'))
+                ctx.raised(exc, 'convolved:roundtrip-raised', 'convolved write/read raised: %r' % (exc,), dict(wit0, kind='convolved'))
             ctx.case(('conv', ic, ctx.shard), nontrivial=True)
             if os.path.exists(path):
                 os.remove(path)
